@@ -75,6 +75,8 @@ def gen_cases(rng, tier):
       if name == "zbl":
         rs = [r for r in rs if r <= 30.0]
       cases.append({"form": name, "vecs": vecs, "rs": rs})
+  if tier in ["thorough"]:
+    cases.append({"kind": "suite"})   # the repository's own tests with this check's contracts armed
   return cases
 
 
@@ -102,6 +104,10 @@ def setup_worker():
 
 
 def run_case(case, ctx):
+  if case.get("kind") == "suite":
+    import suite_contracts
+    ctx.cls("kind:suite_with_contracts")
+    return suite_contracts.run_suite(ctx, 'c06', ['functionfactory'])
   name = case["form"]
   vecs = case["vecs"]
   rs = case["rs"]
